@@ -252,7 +252,7 @@ PROPS["C11"] = dict(
           "(what the storages then hold becomes the model), every stored element must be a live object, and nothing may leak. "
           "Non-trivial: at least two state-changing steps. Distinct: distinct run digests."),
     probes=["array_default_initialised_over_dirty_memory", "array_value_initialised", "resize_to_zero", "grow_from_empty", "shrink", "write_through_reverse_iterator",
-            "storage_write_observed_through_proxy", "compared_equal", "compared_unequal", "at_out_of_range", "resize_threw", "constructor_threw", "resize_with_own_element", "proxy_held_across_a_write", "proxy_assigned_to_proxy", "compared_special_floating_point_values"],
+            "storage_write_observed_through_proxy", "compared_equal", "compared_unequal", "at_out_of_range", "resize_threw", "constructor_threw", "resize_with_own_element", "proxy_held_across_a_write", "proxy_assigned_to_proxy", "proxy_of_another_container_assigned", "compared_special_floating_point_values"],
     components=dict(real=["include/xtl/xoptional_sequence.hpp", "include/xtl/xcomplex_sequence.hpp", "include/xtl/xdynamic_bitset.hpp (flag storage)", "include/xtl/xoptional.hpp / xcomplex.hpp (element proxies)"],
                     stub=["model vector of pairs", "seeded dirty memory under every container object (the only way a defaulted constructor that forgets a storage becomes deterministic)", "lifetime-tracked element type with injected constructor/assignment throws (one configuration family)"]),
     assumptions=["moved-from containers are unspecified and are re-created inside the same step",
